@@ -64,12 +64,14 @@ Writers == 0..MaxSubs            \* 0 = the connection loop, k = goroutine of su
 (* the method table of the replayer: every method takes the context and two required params *)
 WsMethods ==
   [m \in {"m2", "sub", "unsub", "boom"} |->
-     [ctx |-> TRUE, params |-> <<[name |-> "a", opt |-> FALSE], [name |-> "b", opt |-> FALSE]>>]]
+     [ctx |-> TRUE, params |-> <<[name |-> "a", opt |-> FALSE, ty |-> "int"], [name |-> "b", opt |-> FALSE, ty |-> "str"]>>]]
 
 JR == INSTANCE JsonRpc WITH
         Methods <- WsMethods, EntryAlphabet <- {}, TopKinds <- {}, MaxEntries <- MaxEntries,
         PoolSize <- PoolSize, BatchDisabled <- FALSE, FarChoices <- {FALSE},
         FixNotif <- TRUE, FixNonRequest <- FixNonRequest, FixLongWs <- TRUE,
+        \* the replayer's methods take (ctx, a int, b string): no pointer parameter, no validator
+        FixNullRequired <- TRUE, HasValidator <- FALSE, NilPointerSkipsValidation <- TRUE,
         top <- "none", far <- FALSE, entries <- <<>>, phase <- "done", nxt <- 1, running <- {},
         called <- <<>>, stage <- <<>>, out <- <<>>, shape <- "nothing", log <- <<>>
 
